@@ -170,37 +170,18 @@ Fixpoint leaves (e : elt) : list (string * space) :=
   match e with EFun _ n s => [(n, s)] | ESeq _ es => flat_map leaves es end.
 
 (* every function belongs to the corresponding space: the space itself for a scalar / vector
-   space (of the matching kind), the i-th component space for the i-th entry under a product *)
+   space (of the matching kind); under a product the i-th entry lies in the i-th component
+   space, with exactly one entry per component space *)
 Inductive placed : space -> elt -> Prop :=
 | P_fun : forall k nm n, placed (SBasic k nm) (EFun k n (SBasic k nm))
 | P_prod : forall c spaces es, placed_zip spaces es -> placed (SProduct spaces) (ESeq c es)
 | P_many : forall c k nm es, placed_all (SBasic k nm) es -> placed (SBasic k nm) (ESeq c es)
 with placed_zip : list space -> list elt -> Prop :=
-| PZ_nil : forall ss, placed_zip ss []
+| PZ_nil : placed_zip [] []
 | PZ_cons : forall s ss e es, placed s e -> placed_zip ss es -> placed_zip (s :: ss) (e :: es)
 with placed_all : space -> list elt -> Prop :=
 | PA_nil : forall s, placed_all s []
 | PA_cons : forall s e es, placed s e -> placed_all s es -> placed_all s (e :: es).
-
-(* the hypothesis that makes `zip(spaces, names)` lossless: under a product space there are
-   no more entries than component spaces *)
-Fixpoint fits (sp : space) (names : out) {struct names} : bool :=
-  match names with
-  | OName _ => true
-  | OSeq _ l =>
-      match sp with
-      | SProduct spaces =>
-          (length l <=? length spaces) &&
-          (fix go (ss : list space) (l : list out) {struct l} : bool :=
-             match ss, l with
-             | s :: ss', n :: l' => fits s n && go ss' l'
-             | _, _ => true
-             end) spaces l
-      | SBasic _ _ =>
-          (fix go (l : list out) : bool :=
-             match l with [] => true | n :: l' => fits sp n && go l' end) l
-      end
-  end.
 
 Fixpoint zip_res (f : space -> out -> result elt) (ss : list space) (l : list out) : result (list elt) :=
   match ss, l with
@@ -211,24 +192,21 @@ Fixpoint zip_res (f : space -> out -> result elt) (ss : list space) (l : list ou
       end
   | _, _ => Ok []
   end.
-Fixpoint zip_fits (ss : list space) (l : list out) : bool :=
-  match ss, l with
-  | s :: ss', n :: l' => fits s n && zip_fits ss' l'
-  | _, _ => true
-  end.
 Definition wrapE (k : ckind) (r : result (list elt)) : result elt :=
   match r with Err e => Err e | Ok xs => Ok (ESeq k xs) end.
 
 Lemma rec_element_of_seq k l sp :
   rec_element_of sp (OSeq k l) =
   match sp with
-  | SProduct spaces => wrapE k (zip_res rec_element_of spaces l)
+  | SProduct spaces => if negb (length l =? length spaces) then Err ValueErr
+                       else wrapE k (zip_res rec_element_of spaces l)
   | SBasic _ _ => Err ValueErr
   end.
 Proof.
   destruct sp as [kk nm|spaces]; [reflexivity|]. simpl. unfold wrapE.
+  destruct (negb (length l =? length spaces)); [reflexivity|].
   match goal with |- match ?a with _ => _ end = match ?b with _ => _ end => assert (E : a = b) end.
-  { revert spaces. induction l as [|n r IH]; intros [|s ss]; simpl; try reflexivity.
+  { generalize spaces as ss. induction l as [|n r IH]; intros [|s ss]; simpl; try reflexivity.
     rewrite IH. reflexivity. }
   rewrite E. reflexivity.
 Qed.
@@ -236,7 +214,8 @@ Qed.
 Lemma rec_elements_of_seq k l sp :
   rec_elements_of sp (OSeq k l) =
   match sp with
-  | SProduct spaces => wrapE k (zip_res rec_elements_of spaces l)
+  | SProduct spaces => if negb (length l =? length spaces) then Err ValueErr
+                       else wrapE k (zip_res rec_elements_of spaces l)
   | SBasic _ _ => wrapE k (map_res (rec_elements_of sp) l)
   end.
 Proof.
@@ -244,102 +223,99 @@ Proof.
   - match goal with |- match ?a with _ => _ end = match ?b with _ => _ end => assert (E : a = b) end.
     { induction l as [|n r IH]; simpl; [reflexivity|]. rewrite IH. reflexivity. }
     rewrite E. reflexivity.
-  - match goal with |- match ?a with _ => _ end = match ?b with _ => _ end => assert (E : a = b) end.
-    { revert spaces. induction l as [|n r IH]; intros [|s ss]; simpl; try reflexivity.
+  - destruct (negb (length l =? length spaces)); [reflexivity|].
+    match goal with |- match ?a with _ => _ end = match ?b with _ => _ end => assert (E : a = b) end.
+    { generalize spaces as ss. induction l as [|n r IH]; intros [|s ss]; simpl; try reflexivity.
       rewrite IH. reflexivity. }
     rewrite E. reflexivity.
-Qed.
-
-Lemma fits_seq c l sp :
-  fits sp (OSeq c l) =
-  match sp with
-  | SProduct spaces => (length l <=? length spaces) && zip_fits spaces l
-  | SBasic _ _ => forallb (fits sp) l
-  end.
-Proof.
-  destruct sp as [kk nm|spaces]; simpl.
-  - induction l as [|n r IH]; simpl; [reflexivity|]. rewrite IH. reflexivity.
-  - f_equal. revert spaces. induction l as [|n r IH]; intros [|s ss]; simpl; try reflexivity.
-    rewrite IH. reflexivity.
 Qed.
 
 Lemma element_inv sp n e : element sp n = Ok e -> exists k nm, sp = SBasic k nm /\ e = EFun k n sp.
 Proof. destruct sp; simpl; intros H; inversion H; eauto. Qed.
 
-(* zip over a product: when no entry is cut off, names and placement are preserved *)
+(* zip over a product with one entry per component: names and placement are preserved *)
 Lemma zip_structure (f : space -> out -> result elt) l :
-  Forall (fun n => forall sp e, f sp n = Ok e -> fits sp n = true -> names_tree e = n /\ placed sp e) l ->
-  forall ss xs, zip_res f ss l = Ok xs -> length l <= length ss -> zip_fits ss l = true ->
+  Forall (fun n => forall sp e, f sp n = Ok e -> names_tree e = n /\ placed sp e) l ->
+  forall ss xs, zip_res f ss l = Ok xs -> length l = length ss ->
   map names_tree xs = l /\ placed_zip ss xs.
 Proof.
-  induction 1 as [|n r Hn Hr IH]; intros ss xs Hz Hlen Hf.
-  - destruct ss; simpl in Hz; inversion Hz; split; constructor.
-  - destruct ss as [|s ss]; simpl in Hlen; [lia|]. simpl in Hz, Hf.
-    apply andb_true_iff in Hf. destruct Hf as [Hf1 Hf2].
+  induction 1 as [|n r Hn Hr IH]; intros ss xs Hz Hlen.
+  - destruct ss; simpl in *; [|discriminate]. inversion Hz. split; constructor.
+  - destruct ss as [|s ss]; simpl in Hlen; [discriminate|]. simpl in Hz.
     destruct (f s n) as [x|] eqn:E1; [|discriminate].
     destruct (zip_res f ss r) as [xs'|] eqn:E2; [|discriminate]. inversion Hz; subst.
-    destruct (Hn _ _ E1 Hf1) as [A B]. destruct (IH _ _ E2 ltac:(lia) Hf2) as [C D].
+    destruct (Hn _ _ E1) as [A B]. destruct (IH _ _ E2 ltac:(lia)) as [C D].
     simpl. split; [congruence|constructor; assumption].
 Qed.
 
 Lemma all_structure (f : space -> out -> result elt) sp l :
-  Forall (fun n => forall sp e, f sp n = Ok e -> fits sp n = true -> names_tree e = n /\ placed sp e) l ->
-  forall xs, map_res (f sp) l = Ok xs -> forallb (fits sp) l = true ->
+  Forall (fun n => forall sp e, f sp n = Ok e -> names_tree e = n /\ placed sp e) l ->
+  forall xs, map_res (f sp) l = Ok xs ->
   map names_tree xs = l /\ placed_all sp xs.
 Proof.
-  induction 1 as [|n r Hn Hr IH]; intros xs Hz Hf; simpl in *.
+  induction 1 as [|n r Hn Hr IH]; intros xs Hz; simpl in *.
   - inversion Hz. split; constructor.
-  - apply andb_true_iff in Hf. destruct Hf as [Hf1 Hf2].
-    destruct (f sp n) as [x|] eqn:E1; [|discriminate].
+  - destruct (f sp n) as [x|] eqn:E1; [|discriminate].
     destruct (map_res (f sp) r) as [xs'|] eqn:E2; [|discriminate]. inversion Hz; subst.
-    destruct (Hn _ _ E1 Hf1) as [A B]. destruct (IH _ eq_refl Hf2) as [C D].
+    destruct (Hn _ _ E1) as [A B]. destruct (IH _ eq_refl) as [C D].
     simpl. split; [congruence|constructor; assumption].
 Qed.
 
 Theorem rec_element_of_structure : forall names sp e,
-  rec_element_of sp names = Ok e -> fits sp names = true ->
-  names_tree e = names /\ placed sp e.
+  rec_element_of sp names = Ok e -> names_tree e = names /\ placed sp e.
 Proof.
-  induction names using out_ind'; intros sp e He Hf.
+  induction names using out_ind'; intros sp e He.
   - simpl in He. apply element_inv in He. destruct He as (k & nm & -> & ->). split; constructor.
-  - rewrite rec_element_of_seq in He. rewrite fits_seq in Hf. destruct sp as [kk nm|spaces]; [discriminate|].
+  - rewrite rec_element_of_seq in He. destruct sp as [kk nm|spaces]; [discriminate|].
+    destruct (length l =? length spaces) eqn:Hlen; simpl in He; [|discriminate]. apply Nat.eqb_eq in Hlen.
     unfold wrapE in He. destruct (zip_res rec_element_of spaces l) as [xs|] eqn:E; [|discriminate].
-    inversion He; subst. apply andb_true_iff in Hf. destruct Hf as [Hlen Hz]. apply Nat.leb_le in Hlen.
-    destruct (zip_structure rec_element_of l H _ _ E Hlen Hz) as [A B].
+    inversion He; subst.
+    destruct (zip_structure rec_element_of l H _ _ E Hlen) as [A B].
     simpl. split; [congruence|constructor; assumption].
 Qed.
 
 Theorem rec_elements_of_structure : forall names sp e,
-  rec_elements_of sp names = Ok e -> fits sp names = true ->
-  names_tree e = names /\ placed sp e.
+  rec_elements_of sp names = Ok e -> names_tree e = names /\ placed sp e.
 Proof.
-  induction names using out_ind'; intros sp e He Hf.
+  induction names using out_ind'; intros sp e He.
   - simpl in He. apply element_inv in He. destruct He as (k & nm & -> & ->). split; constructor.
-  - rewrite rec_elements_of_seq in He. rewrite fits_seq in Hf. destruct sp as [kk nm|spaces]; unfold wrapE in He.
+  - rewrite rec_elements_of_seq in He. destruct sp as [kk nm|spaces]; unfold wrapE in He.
     + destruct (map_res (rec_elements_of (SBasic kk nm)) l) as [xs|] eqn:E; [|discriminate].
       inversion He; subst.
-      destruct (all_structure rec_elements_of _ l H _ E Hf) as [A B].
+      destruct (all_structure rec_elements_of _ l H _ E) as [A B].
       simpl. split; [congruence|constructor; assumption].
-    + destruct (zip_res rec_elements_of spaces l) as [xs|] eqn:E; [|discriminate].
-      inversion He; subst. apply andb_true_iff in Hf. destruct Hf as [Hlen Hz]. apply Nat.leb_le in Hlen.
-      destruct (zip_structure rec_elements_of l H _ _ E Hlen Hz) as [A B].
+    + destruct (length l =? length spaces) eqn:Hlen; simpl in He; [|discriminate]. apply Nat.eqb_eq in Hlen.
+      destruct (zip_res rec_elements_of spaces l) as [xs|] eqn:E; [|discriminate].
+      inversion He; subst.
+      destruct (zip_structure rec_elements_of l H _ _ E Hlen) as [A B].
       simpl. split; [congruence|constructor; assumption].
 Qed.
 
-(* the two API functions.  Full statement (false, see element_structure_refuted): the same without `fits` *)
-Theorem element_of_structure_partial : forall sp p names e,
-  expand_A p SeqAbsent = Ok names -> element_of sp p = Ok e -> fits sp names = true ->
+(* the two API functions: whenever elements are created they carry exactly the expanded names,
+   in the same nesting, each in its corresponding space *)
+Theorem element_of_structure : forall sp p names e,
+  expand_A p SeqAbsent = Ok names -> element_of sp p = Ok e ->
   names_tree e = names /\ placed sp e.
 Proof.
-  intros sp p names e Hn He Hf. unfold element_of in He. rewrite Hn in He.
+  intros sp p names e Hn He. unfold element_of in He. rewrite Hn in He.
   now apply rec_element_of_structure.
 Qed.
-Theorem elements_of_structure_partial : forall sp p names e,
-  expand_A p (SeqBool true) = Ok names -> elements_of sp p = Ok e -> fits sp names = true ->
+Theorem elements_of_structure : forall sp p names e,
+  expand_A p (SeqBool true) = Ok names -> elements_of sp p = Ok e ->
   names_tree e = names /\ placed sp e.
 Proof.
-  intros sp p names e Hn He Hf. unfold elements_of in He. rewrite Hn in He.
+  intros sp p names e Hn He. unfold elements_of in He. rewrite Hn in He.
   now apply rec_elements_of_structure.
+Qed.
+
+(* a number of names different from the number of component spaces is refused, never cut *)
+Theorem length_mismatch_refused : forall c spaces l,
+  length l <> length spaces ->
+  rec_element_of (SProduct spaces) (OSeq c l) = Err ValueErr /\
+  rec_elements_of (SProduct spaces) (OSeq c l) = Err ValueErr.
+Proof.
+  intros c spaces l H. rewrite rec_element_of_seq, rec_elements_of_seq.
+  apply Nat.eqb_neq in H. rewrite H. split; reflexivity.
 Qed.
 
 Section elt_induction.
@@ -366,25 +342,24 @@ Qed.
 
 (* no name is lost, none is invented, the order is kept *)
 Corollary element_of_names : forall sp p names e,
-  expand_A p SeqAbsent = Ok names -> element_of sp p = Ok e -> fits sp names = true ->
+  expand_A p SeqAbsent = Ok names -> element_of sp p = Ok e ->
   map fst (leaves e) = flat_out names.
 Proof.
   intros. rewrite <- names_tree_flat.
-  destruct (element_of_structure_partial _ _ _ _ H H0 H1) as [-> _]. reflexivity.
+  destruct (element_of_structure _ _ _ _ H H0) as [-> _]. reflexivity.
+Qed.
+Corollary elements_of_names : forall sp p names e,
+  expand_A p (SeqBool true) = Ok names -> elements_of sp p = Ok e ->
+  map fst (leaves e) = flat_out names.
+Proof.
+  intros. rewrite <- names_tree_flat.
+  destruct (elements_of_structure _ _ _ _ H H0) as [-> _]. reflexivity.
 Qed.
 
 Open Scope string_scope.
-(* without the hypothesis: element_of(V*W, 'a,b,c') silently drops c *)
-Theorem element_structure_refuted :
-  exists sp p names e, expand_A p SeqAbsent = Ok names /\ element_of sp p = Ok e /\
-                       names_tree e <> names /\ map fst (leaves e) <> flat_out names.
-Proof.
-  exists (product_new [SBasic KScalar "V"; SBasic KVector "W"]), (PStr "a,b,c").
-  eexists. eexists. split; [vm_compute; reflexivity|]. split; [vm_compute; reflexivity|].
-  split; vm_compute; discriminate.
-Qed.
-Theorem elements_structure_refuted :
-  exists sp p names e, expand_A p (SeqBool true) = Ok names /\ elements_of sp p = Ok e /\
+(* for the record: before the repair f3da127, element_of(V*W, 'a,b,c') silently dropped c *)
+Theorem element_structure_refuted_before_fix :
+  exists sp p names e, expand_A p SeqAbsent = Ok names /\ element_of_before_fix sp p = Ok e /\
                        names_tree e <> names /\ map fst (leaves e) <> flat_out names.
 Proof.
   exists (product_new [SBasic KScalar "V"; SBasic KVector "W"]), (PStr "a,b,c").
@@ -407,7 +382,6 @@ Proof.
 Qed.
 Lemma product_new_comps l : comps (product_new l) = flat_map comps l.
 Proof. reflexivity. Qed.
-
 Theorem product_new_spec : forall l,
   forallb flat_space l = true ->
   flat_space (product_new l) = true /\ comps (product_new l) = flat_map comps l.
@@ -429,12 +403,14 @@ Proof.
   rewrite (Hf s n Hs), (IH ns Hss). reflexivity.
 Qed.
 
+(* one plain name per component space: the result is zip(spaces, names), it is never refused *)
 Theorem element_of_is_zip : forall c spaces ns,
-  forallb is_basic spaces = true ->
+  forallb is_basic spaces = true -> length ns = length spaces ->
   rec_element_of (SProduct spaces) (OSeq c (map OName ns)) = Ok (ESeq c (map mkfun (combine spaces ns))) /\
   rec_elements_of (SProduct spaces) (OSeq c (map OName ns)) = Ok (ESeq c (map mkfun (combine spaces ns))).
 Proof.
-  intros c spaces ns Hb. rewrite rec_element_of_seq, rec_elements_of_seq. unfold wrapE.
+  intros c spaces ns Hb Hlen. rewrite rec_element_of_seq, rec_elements_of_seq. unfold wrapE.
+  rewrite map_length, Hlen, Nat.eqb_refl. simpl.
   rewrite !zip_res_names; auto; intros s n Hs; destruct s; simpl in *; try discriminate; reflexivity.
 Qed.
 
@@ -447,20 +423,25 @@ Proof.
   destruct s; simpl in *; [reflexivity|discriminate].
 Qed.
 
-(* the (name, space) pairs are zip(names, component spaces); with as many component spaces as
-   names nothing is lost *)
+(* the (name, space) pairs are zip(names, component spaces): every name and every component
+   space occurs, in order *)
 Theorem element_of_leaves : forall c spaces ns e,
   forallb is_basic spaces = true ->
   rec_element_of (SProduct spaces) (OSeq c (map OName ns)) = Ok e ->
-  leaves e = combine ns spaces /\ (length ns <= length spaces -> map fst (leaves e) = ns).
+  leaves e = combine ns spaces /\ map fst (leaves e) = ns /\ map snd (leaves e) = spaces.
 Proof.
-  intros c spaces ns e Hb He. destruct (element_of_is_zip c spaces ns Hb) as [E _].
+  intros c spaces ns e Hb He.
+  assert (Hlen : length ns = length spaces).
+  { destruct (Nat.eq_dec (length ns) (length spaces)) as [E|N]; [assumption|].
+    destruct (length_mismatch_refused c spaces (map OName ns)) as [R _]; [now rewrite map_length|].
+    rewrite R in He. discriminate. }
+  destruct (element_of_is_zip c spaces ns Hb Hlen) as [E _].
   rewrite E in He. inversion He; subst. simpl. rewrite leaves_mkfun by assumption.
   assert (Z : map (fun sn : space * string => (snd sn, fst sn)) (combine spaces ns) = combine ns spaces).
   { clear. revert ns. induction spaces as [|s ss IH]; intros [|n ns]; simpl; try reflexivity. now rewrite IH. }
-  rewrite Z. split; [reflexivity|]. intros Hlen.
-  clear - Hlen. revert spaces Hlen. induction ns as [|n ns IH]; intros [|s ss] Hlen; simpl in *; try reflexivity; try lia.
-  rewrite IH by lia. reflexivity.
+  rewrite Z. split; [reflexivity|]. clear - Hlen. revert spaces Hlen.
+  induction ns as [|n ns IH]; intros [|s ss] Hlen; simpl in *; try discriminate; [split; reflexivity|].
+  destruct (IH ss ltac:(lia)) as [A B]. rewrite A, B. split; reflexivity.
 Qed.
 
 (* ------------------------------------------------------------------ the scanner is the regular expression *)
